@@ -59,6 +59,8 @@ def gen_plan(seed, tier):
               sep=r.choice([0.5, 2.0, 4.0]))
   if sizes:
     desc["class_sizes"] = sizes
+  if r.random() < 0.25:
+    desc["label_stride"], desc["label_offset"] = r.choice([1, 3]), r.choice([2, 7])
   params = {}
   fits = [dict(mode="seeded", seed=1)]
   if cls == "LFDA":
@@ -178,7 +180,7 @@ def run_plan(plan):
         if L.shape != (dim, d):
           raise Violation("formula", "cls=LFDA,shape", "components_ shape %s" % (L.shape,))
         e = rel_err(M, ref["M"])
-        small = any(n_c - 1 < k_eff for n_c in np.bincount(y))
+        small = any(n_c - 1 < k_eff for n_c in np.unique(y, return_counts=True)[1])
         cov["lfda_class_smaller_than_k"] += int(small)
         cov["lfda_path_" + ("arpack" if ncalls and not nforced else
                             "dense_after_forced_failure" if nforced else "dense")] += 1
